@@ -1019,6 +1019,12 @@ func (x *vc) convert(fr *frame, st *state, in *ssa.Convert, pos string) Val {
 		lo, hi, _ := intRange(to)
 		inRange := and(not(app("fp.isNaN", v.T)), not(app("fp.isInfinite", v.T)), app("<=", app("to_real", lo), app("fp.to_real", tr)), app("<=", app("fp.to_real", tr), app("to_real", hi)))
 		x.assume(st.guard, implies(inRange, eq(app("to_real", r.T), app("fp.to_real", tr))))
+		if lo == "(- 9223372036854775808)" {
+			// out of range the Go spec leaves the result to the implementation; the two 64-bit targets this code runs on
+			// give the "integer indefinite" value MinInt64 (amd64) or saturate (arm64: MaxInt64 / MinInt64, 0 for NaN)
+			x.trusted["float64 -> int64 conversion out of range: amd64 (MinInt64) or arm64 (saturating, NaN -> 0) result assumed"] = true
+			x.assume(st.guard, implies(not(inRange), or(eq(r.T, lo), eq(r.T, hi), and(app("fp.isNaN", v.T), eq(r.T, "0")))))
+		}
 		return r
 	case fs == sF64 && ts == sF64:
 		return Val{T: v.T, Typ: to}
